@@ -303,3 +303,153 @@ Proof.
   destruct H as [H|H]; [left|right]; apply agrees_runs_each in H;
     (eapply Forall2_weaken; [|exact H]); intros r o (prior' & A); eapply agrees_run_matches; exact A.
 Qed.
+
+(* ------------------------------------------------------------------------------------------ *)
+(* Processor.set on an argument: read after write *)
+
+Fixpoint kw_lookup (k : string) (a : kwargs) : option pyval :=
+  match a with
+  | [] => None
+  | (k', x) :: r => if String.eqb k' k then Some x else kw_lookup k r
+  end.
+
+Fixpoint entry_lookup (k : string) (es : list pyval) : option pyval :=
+  match es with
+  | [] => None
+  | VList [VStr k'; x] :: r => if String.eqb k' k then Some x else entry_lookup k r
+  | _ :: r => entry_lookup k r
+  end.
+
+(* the value found by walking `path` (dict keys, list indices) from x *)
+Fixpoint get_in (path : list pelem) (x : pyval) : option pyval :=
+  match path with
+  | [] => Some x
+  | PKey k :: rest => match x with
+                      | VDict es => match entry_lookup k es with Some y => get_in rest y | None => None end
+                      | _ => None
+                      end
+  | PIdx i :: rest => match x with
+                      | VList l => match nth_error l i with Some y => get_in rest y | None => None end
+                      | _ => None
+                      end
+  end.
+
+Lemma kw_lookup_upd_same k f a : kw_lookup k (upd_kw k f a) = option_map f (kw_lookup k a).
+Proof.
+  induction a as [|[k' x] a IH]; simpl; [reflexivity|].
+  destruct (String.eqb k' k) eqn:E; simpl; rewrite E; [reflexivity|exact IH].
+Qed.
+
+Lemma kw_lookup_upd_other k k' f a : k' <> k -> kw_lookup k' (upd_kw k f a) = kw_lookup k' a.
+Proof.
+  intro H. induction a as [|[k0 x] a IH]; simpl; [reflexivity|].
+  destruct (String.eqb k0 k) eqn:E; simpl.
+  - apply String.eqb_eq in E. subst k0.
+    replace (String.eqb k k') with false by (symmetry; apply String.eqb_neq; auto). reflexivity.
+  - destruct (String.eqb k0 k'); [reflexivity|exact IH].
+Qed.
+
+Lemma entry_lookup_upd_same k f es :
+  entry_lookup k (upd_entry k f es) = option_map f (entry_lookup k es).
+Proof.
+  induction es as [|e es IH]; simpl; [reflexivity|].
+  destruct e as [z|b|s'| |l|l]; simpl; try exact IH.
+  destruct l as [|[z|b|k'| |l1|l1] [|x [|y l]]]; simpl; try exact IH.
+  destruct (String.eqb k' k) eqn:E; simpl; rewrite E; [reflexivity|exact IH].
+Qed.
+
+(* a value written through an existing path is the value read through it *)
+Lemma get_in_set_in path v : forall x,
+  get_in path x <> None -> get_in path (set_in path v x) = Some v.
+Proof.
+  induction path as [|[k|i] rest IH]; intros x H; simpl in *; [reflexivity| |].
+  - destruct x; try (contradiction H; reflexivity).
+    rewrite entry_lookup_upd_same. destruct (entry_lookup k entries) as [y|]; [|contradiction H; reflexivity].
+    simpl. apply IH. exact H.
+  - destruct x; try (contradiction H; reflexivity).
+    rewrite nth_error_upd_nth_same. destruct (nth_error l i) as [y|]; [|contradiction H; reflexivity].
+    simpl. apply IH. exact H.
+Qed.
+
+(* position of the first model of that name *)
+Fixpoint first_named (mn : string) (ms : list mfun) : option nat :=
+  match ms with
+  | [] => None
+  | m :: r => if String.eqb (name m) mn then Some 0 else option_map S (first_named mn r)
+  end.
+
+Lemma upd_first_is_upd_nth mn f ms i :
+  first_named mn ms = Some i -> upd_first mn f ms = upd_nth i (fun m => set_args m (f (args m))) ms.
+Proof.
+  revert i. induction ms as [|m ms IH]; intros i H; simpl in *; [discriminate|].
+  destruct (String.eqb (name m) mn).
+  - injection H as <-. reflexivity.
+  - destruct (first_named mn ms) as [j|]; [|discriminate]. injection H as <-. simpl. f_equal. apply IH. reflexivity.
+Qed.
+
+(* Processor.set "pipeline.<g>.<mn>.arguments.<k>.<path>" = v changes exactly the argument k of the first
+   model named mn of group g: that position keeps its name and its switch, every other position and
+   every other group is untouched, and reading the path back gives v *)
+Lemma override_effect p ov ms i m0 :
+  get p (o_group ov) = Some ms -> first_named (o_model ov) ms = Some i -> nth_error ms i = Some m0 ->
+  let p' := apply_override p ov in
+  let m1 := set_args m0 (upd_kw (o_key ov) (set_in (o_path ov) (o_value ov)) (args m0)) in
+  get p' (o_group ov) = Some (upd_nth i (fun m => set_args m (upd_kw (o_key ov) (set_in (o_path ov) (o_value ov)) (args m))) ms) /\
+  (forall g', g' <> o_group ov -> get p' g' = get p g') /\
+  (forall n step g' i', executes p' n step g' i' = executes p n step g' i') /\
+  name m1 = name m0 /\ enabled m1 = enabled m0 /\ grows m1 = grows m0 /\
+  (forall x, kw_lookup (o_key ov) (args m0) = Some x -> get_in (o_path ov) x <> None ->
+     exists y, kw_lookup (o_key ov) (args m1) = Some y /\ get_in (o_path ov) y = Some (o_value ov)) /\
+  (forall k', k' <> o_key ov -> kw_lookup k' (args m1) = kw_lookup k' (args m0)).
+Proof.
+  intros Hg Hf Hi p' m1.
+  assert (E : get p' (o_group ov) =
+              Some (upd_nth i (fun m => set_args m (upd_kw (o_key ov) (set_in (o_path ov) (o_value ov)) (args m))) ms)).
+  { unfold p', apply_override. rewrite get_set_group_same, Hg. simpl. f_equal.
+    apply upd_first_is_upd_nth. exact Hf. }
+  assert (O : forall g', g' <> o_group ov -> get p' g' = get p g').
+  { intros g' H. unfold p', apply_override. apply get_set_group_other. exact H. }
+  split; [exact E|]. split; [exact O|]. split.
+  - intros n step g' i'. unfold executes.
+    destruct (group_eq_dec g' (o_group ov)) as [->|Hne]; [|rewrite O by exact Hne; reflexivity].
+    rewrite E, Hg. f_equal.
+    destruct (Nat.eq_dec i' i) as [->|Hi'].
+    + rewrite nth_error_upd_nth_same, Hi. reflexivity.
+    + rewrite nth_error_upd_nth_other by auto. reflexivity.
+  - repeat split; try reflexivity.
+    + intros x Hx Hp. exists (set_in (o_path ov) (o_value ov) x). split.
+      * unfold m1. simpl. rewrite kw_lookup_upd_same, Hx. reflexivity.
+      * apply get_in_set_in. exact Hp.
+    + intros k' Hk. unfold m1. simpl. apply kw_lookup_upd_other. exact Hk.
+Qed.
+
+(* any operation x, then operations that do not write object o, then a run of o: the run is judged
+   against the configuration x left in o *)
+Lemma op_then_run inplace st pre x o mid m n post p' :
+  nth_error (apply_op inplace (exec_ops inplace st pre) x) o = Some p' ->
+  (forall y, In y mid -> writes inplace y o = false) ->
+  hist_runs inplace st (pre ++ x :: mid ++ ORun o m n :: post) =
+  hist_runs inplace st (pre ++ x :: mid) ++
+  {| r_obj := o; r_cfg := p'; r_mode := m; r_steps := n |} ::
+  hist_runs inplace (apply_op inplace (exec_ops inplace st (pre ++ x :: mid)) (ORun o m n)) post.
+Proof.
+  intros Hp W.
+  replace (pre ++ x :: mid ++ ORun o m n :: post) with ((pre ++ x :: mid) ++ ORun o m n :: post)
+    by (rewrite <- app_assoc; reflexivity).
+  apply hist_runs_at. rewrite exec_ops_app. simpl.
+  change (fold_left (apply_op inplace) mid ?s) with (exec_ops inplace s mid).
+  rewrite exec_ops_frame; [exact Hp| |exact W].
+  apply nth_error_Some. rewrite Hp. discriminate.
+Qed.
+
+Lemma setarg_then_run inplace st pre o ov mid m n post p :
+  nth_error (exec_ops inplace st pre) o = Some p ->
+  (forall y, In y mid -> writes inplace y o = false) ->
+  hist_runs inplace st (pre ++ OSetArg o ov :: mid ++ ORun o m n :: post) =
+  hist_runs inplace st (pre ++ OSetArg o ov :: mid) ++
+  {| r_obj := o; r_cfg := apply_override p ov; r_mode := m; r_steps := n |} ::
+  hist_runs inplace (apply_op inplace (exec_ops inplace st (pre ++ OSetArg o ov :: mid)) (ORun o m n)) post.
+Proof.
+  intros Hp W. apply op_then_run; [|exact W].
+  simpl. unfold upd_store. rewrite nth_error_upd_nth_same, Hp. reflexivity.
+Qed.
